@@ -45,6 +45,13 @@ class Macro:
         return 'asm {\n%s\n    }' % '\n'.join('        ' + l for l in lines)
 
 
+def fix_cuts(isa):
+    """asm_gen may partition the rules into several #ruledef blocks; rules appended later join the last block"""
+    cuts = getattr(isa, 'cuts', None)
+    if cuts:
+        isa.cuts = [c for c in cuts if c < len(isa.rules) and c < cuts[-1]] + [len(isa.rules)]
+
+
 def is_macro(isa, ri):
     return 'macro' in isa.rules[ri]
 
@@ -152,6 +159,7 @@ def extend_with_macros(rng, prog, nmac=None):
         rule = dict(m='zm%d' % i, ops=mac.ops, prod=None, macro=mac)
         rule['prod'] = mac.prod(prog)
         isa.rules.append(rule)
+    fix_cuts(isa)
     return nbase0, nbase
 
 
@@ -315,6 +323,9 @@ def base_isa_of(isa, first_macro):
     b = asm_gen.Isa()
     b.subs = isa.subs
     b.rules = isa.rules[:first_macro]
+    cuts = getattr(isa, 'cuts', None)
+    if cuts:
+        b.cuts = [c for c in cuts if c < first_macro] + [first_macro]
     return b
 
 
@@ -511,6 +522,8 @@ def gen_fn_case(rng):
     isa_c, isa_e = prog.isa, asm_gen.Isa()
     isa_e.subs = isa_c.subs
     isa_e.rules = [dict(r) for r in isa_c.rules]
+    if getattr(isa_c, 'cuts', None):
+        isa_e.cuts = list(isa_c.cuts)
     for j in range(rng.range(0, 2)):
         two = rng.chance(0.4)
         fi = rng.below(len(fns))
@@ -524,6 +537,7 @@ def gen_fn_case(rng):
         rc = dict(m='zr%d' % j, ops=ops, prod='%s @ %s`%d' % (op8, paren(render(t, fns, 'call', None)), w))
         re_ = dict(m='zr%d' % j, ops=ops, prod='%s @ %s`%d' % (op8, paren(render(t, fns, 'expand', None)), w))
         isa_c.rules.append(rc); isa_e.rules.append(re_)
+        fix_cuts(isa_c); fix_cuts(isa_e)
         feats.add('call-in-production')
     items_c, items_e = list(prog.items), list(prog.items)
 
